@@ -394,6 +394,11 @@ func (c *contentValidator) ValidateRequestAccept(ch *aclrecordproto.AclAccountRe
 	if !acceptIdentity.Equals(record.RequestIdentity) {
 		return ErrIncorrectIdentity
 	}
+	if !c.aclState.Permissions(acceptIdentity).NoPermissions() {
+		// the requester became a member by another route (AccountsAdd, permission change) while its join
+		// request was pending: approving the stale request would re-permission an existing member
+		return ErrInsufficientPermissions
+	}
 	if ch.Permissions == aclrecordproto.AclUserPermissions_Owner {
 		return ErrInsufficientPermissions
 	}
